@@ -434,6 +434,30 @@ func findStub(in *Interp, fn *ssa.Function) StubFn {
 		if name == "GetHintName" {
 			return func(in *Interp, fn *ssa.Function, a []Val) Val { return "<hint>" }
 		}
+	case "sort":
+		if (name == "Slice" || name == "SliceStable") && fn.Signature.Recv() == nil {
+			// insertion sort driven by the caller's less closure (forks on symbolic comparisons);
+			// any order consistent with less is a valid outcome of sort.Slice, equal keys keep their order
+			return func(in *Interp, fn *ssa.Function, a []Val) Val {
+				s, ok := a[0].(IfaceV).V.(SliceV)
+				if !ok {
+					panic(abort("unmodelled", "sort.Slice on a non-slice"))
+				}
+				less := a[1].(FuncV)
+				for i := 1; i < s.Len; i++ {
+					for j := i; j > 0; j-- {
+						r := in.call(less, []Val{BVConst(uint64(j), 64), BVConst(uint64(j-1), 64)}, nil)
+						if !in.branch(r.(*Term)) {
+							break
+						}
+						x, y := in.sliceGet(s, j), in.sliceGet(s, j-1)
+						in.store(in.sliceElemPtr(s, j), y)
+						in.store(in.sliceElemPtr(s, j-1), x)
+					}
+				}
+				return nil
+			}
+		}
 	case "reflect":
 		switch name {
 		case "ValueOf":
